@@ -360,4 +360,607 @@ theorem expandWildcard_spec {db : BibData} (hdb : DbWF db) (cits : List Str) :
     db.expandWildcard cits = expanded db.toS cits :=
   expandAux_spec hdb SetRel.empty cits
 
+/-! ### the counter -/
+
+theorem getItemDefault_setItem (d : CIDict Int) (k k' : Str) (v : Int) :
+    (d.setItem k v).getItemDefault k' 0 = if lower k' = lower k then v else d.getItemDefault k' 0 := by
+  simp only [CIDict.getItemDefault, CIDict.getItem, CIDict.setItem]
+  by_cases h : lower k' = lower k
+  · rw [if_pos h, h, dget_dset_same]; rfl
+  · rw [if_neg h, dget_dset_ne _ _ _ _ h]
+
+theorem getItemDefault_congr (d : CIDict Int) {k k' : Str} (h : lower k = lower k') :
+    d.getItemDefault k 0 = d.getItemDefault k' 0 := by
+  simp [CIDict.getItemDefault, CIDict.getItem, h]
+
+theorem refCount_append (db : SDb) (p : Str) (a b : List Str) :
+    refCount db p (a ++ b) = refCount db p a + refCount db p b := by
+  simp [refCount, List.filter_append]
+
+theorem refCount_single (db : SDb) (p c : Str) : refCount db p [c] = if refers db p c then 1 else 0 := by
+  simp only [refCount, List.filter_cons, List.filter_nil]
+  split <;> rfl
+
+theorem refers_congr {p p' : Str} (h : lower p = lower p') (db : SDb) (c : Str) : refers db p c = refers db p' c := by
+  unfold refers
+  split
+  · exact keq_congr_right _ h
+  · rfl
+
+theorem refCount_congr {p p' : Str} (h : lower p = lower p') (db : SDb) (l : List Str) :
+    refCount db p l = refCount db p' l := by
+  unfold refCount
+  congr 1
+  apply List.filter_congr
+  intro c _
+  exact refers_congr h db c
+
+theorem refers_of_parent {db : SDb} {c : Str} {P : SEntry} (h : parentOf db c = some P) (k : Str) :
+    refers db k c = keq P.key k := by
+  simp [refers, h]
+
+theorem refers_of_no_parent {db : SDb} {c : Str} (h : parentOf db c = none) (k : Str) : refers db k c = false := by
+  simp [refers, h]
+
+/-! ### `_get_crossreferenced_citations` = `extra` + `dangling` -/
+
+/-- invariant of the loop: `pre` = citations passed, `Y` = parents yielded so far -/
+structure XInv (sdb : SDb) (m : Int) (L : List Str) (st : BibData.XState) (pre Y : List Str) : Prop where
+  count : ∀ k, st.count.getItemDefault k 0 = (refCount sdb k pre : Int)
+  cset : ∀ k, st.cset.contains k = (cited L k || Y.any (keq k))
+  yielded : ∀ k, Y.any (keq k) = true ↔ (cited L k = false ∧ max m 1 ≤ (refCount sdb k pre : Int))
+
+theorem XInv.skip {sdb : SDb} {m : Int} {L : List Str} {st : BibData.XState} {pre Y : List Str} {c : Str}
+    (h : XInv sdb m L st pre Y) (hp : parentOf sdb c = none) : XInv sdb m L st (pre ++ [c]) Y := by
+  have hr : ∀ k, refCount sdb k (pre ++ [c]) = refCount sdb k pre := by
+    intro k; rw [refCount_append, refCount_single, refers_of_no_parent hp]; simp
+  exact ⟨fun k => by rw [hr]; exact h.count k, h.cset, fun k => by rw [hr]; exact h.yielded k⟩
+
+/-- the dangling reference of one citation, if any -/
+def danglingAt (sdb : SDb) (c : Str) : Option (Str × Str) :=
+  (find sdb c).bind fun e => e.crossref.bind fun x =>
+    match find sdb x with
+    | none => some (c, x)
+    | some _ => none
+
+theorem dangling_eq (sdb : SDb) (l : List Str) : dangling sdb l = l.filterMap (danglingAt sdb) := rfl
+
+theorem dangling_cons_none {sdb : SDb} {c : Str} (h : danglingAt sdb c = none) (suf : List Str) :
+    dangling sdb (c :: suf) = dangling sdb suf := by
+  simp [dangling_eq, h]
+
+theorem dangling_cons_some {sdb : SDb} {c : Str} {b : Str × Str} (h : danglingAt sdb c = some b) (suf : List Str) :
+    dangling sdb (c :: suf) = b :: dangling sdb suf := by
+  simp [dangling_eq, h]
+
+theorem crossrefAux_spec {db : BibData} (hdb : DbWF db) (m : Int) (L : List Str) :
+    ∀ (suf : List Str) (st : BibData.XState) (pre Y : List Str), XInv db.toS m L st pre Y →
+      BibData.crossrefAux db m st suf =
+        (extraFrom db.toS m L pre suf, (dangling db.toS suf).map fun p => Report.badCrossref p.1 p.2) := by
+  intro suf
+  induction suf with
+  | nil => intro st pre Y _; simp [BibData.crossrefAux, extraFrom, dangling]
+  | cons c suf ih =>
+    intro st pre Y hinv
+    simp only [BibData.crossrefAux, extraFrom]
+    have hfc := getItem_entries hdb c
+    cases hgc : db.entries.getItem c with
+    | none =>
+      dsimp only
+      rw [hgc] at hfc
+      have hf : find db.toS c = none := by simpa using hfc.symm
+      have hp : parentOf db.toS c = none := by simp [parentOf, hf]
+      have hd : danglingAt db.toS c = none := by simp [danglingAt, hf]
+      rw [dangling_cons_none hd]
+      simp only [hp, List.nil_append]
+      exact ih st _ Y (hinv.skip hp)
+    | some e =>
+      dsimp only
+      rw [hgc] at hfc
+      have hf : find db.toS c = some e.toS := by simpa using hfc.symm
+      obtain ⟨hwe, _⟩ := getItem_entries_wf hdb hgc
+      have hx := Entry.crossref_toS hwe
+      cases hgx : e.fields.getItem Pybtex.xrefName with
+      | none =>
+        dsimp only
+        rw [hgx] at hx
+        have hp : parentOf db.toS c = none := by simp [parentOf, hf, ← hx]
+        have hd : danglingAt db.toS c = none := by simp [danglingAt, hf, ← hx]
+        rw [dangling_cons_none hd]
+        simp only [hp, List.nil_append]
+        exact ih st _ Y (hinv.skip hp)
+      | some x =>
+        dsimp only
+        rw [hgx] at hx
+        have hfx := getItem_entries hdb x
+        cases hgp : db.entries.getItem x with
+        | none =>
+          dsimp only
+          rw [hgp] at hfx
+          have hfx' : find db.toS x = none := by simpa using hfx.symm
+          have hp : parentOf db.toS c = none := by simp [parentOf, hf, ← hx, hfx']
+          have hd : danglingAt db.toS c = some (c, x) := by simp [danglingAt, hf, ← hx, hfx']
+          rw [dangling_cons_some hd]
+          simp only [hp, List.nil_append]
+          rw [ih st _ Y (hinv.skip hp)]
+          simp
+        | some p =>
+          dsimp only
+          rw [hgp] at hfx
+          have hfx' : find db.toS x = some p.toS := by simpa using hfx.symm
+          have hp : parentOf db.toS c = some p.toS := by simp [parentOf, hf, ← hx, hfx']
+          have hd : danglingAt db.toS c = none := by simp [danglingAt, hf, ← hx, hfx']
+          rw [dangling_cons_none hd]
+          simp only [hp]
+          have hkey : p.toS.key = p.key := rfl
+          rw [hkey]
+          -- reference counts after this citation
+          have hr : ∀ k, (refCount db.toS k (pre ++ [c]) : Int) =
+              (refCount db.toS k pre : Int) + (if lower k = lower p.key then 1 else 0) := by
+            intro k
+            rw [refCount_append, refCount_single, refers_of_parent hp, hkey]
+            by_cases hk : lower k = lower p.key
+            · have : keq p.key k = true := (keq_iff _ _).2 hk.symm
+              simp [this, hk]
+            · have : keq p.key k = false := by
+                rw [Bool.eq_false_iff]; intro h'; exact hk ((keq_iff _ _).1 h').symm
+              simp [this, hk]
+          have hcount : ∀ k, (st.count.setItem p.key (st.count.getItemDefault p.key 0 + 1)).getItemDefault k 0 =
+              (refCount db.toS k (pre ++ [c]) : Int) := by
+            intro k
+            rw [getItemDefault_setItem, hr k]
+            by_cases hk : lower k = lower p.key
+            · rw [if_pos hk, if_pos hk, hinv.count, refCount_congr hk]
+            · rw [if_neg hk, if_neg hk, hinv.count]; simp
+          have hself := hr p.key
+          simp only [if_true] at hself
+          have hyp := hinv.yielded p.key
+          have hcs := hinv.cset p.key
+          -- the two tests agree
+          have hcond : (decide ((st.count.setItem p.key (st.count.getItemDefault p.key 0 + 1)).getItemDefault p.key 0 ≥ m)
+                && !st.cset.contains p.key) =
+              (!cited L p.key && ((refCount db.toS p.key (pre ++ [c]) : Int) == max m 1)) := by
+            rw [hcount p.key, hcs, hself, Bool.eq_iff_iff]
+            simp only [Bool.and_eq_true, decide_eq_true_eq, Bool.not_eq_true', Bool.or_eq_false_iff, beq_iff_eq]
+            cases hcit : cited L p.key with
+            | true => simp
+            | false =>
+              simp only [hcit, true_and] at hyp
+              constructor
+              · rintro ⟨h1, -, h3⟩
+                refine ⟨rfl, ?_⟩
+                have : ¬ (max m 1 ≤ (refCount db.toS p.key pre : Int)) := by
+                  intro h'; rw [hyp.2 h'] at h3; cases h3
+                omega
+              · rintro ⟨-, h2⟩
+                refine ⟨by omega, rfl, ?_⟩
+                cases hY : Y.any (keq p.key) with
+                | false => rfl
+                | true => have := hyp.1 hY; omega
+          rw [hcond]
+          by_cases hy : (!cited L p.key && ((refCount db.toS p.key (pre ++ [c]) : Int) == max m 1)) = true
+          · rw [if_pos hy, if_pos hy]
+            simp only [Bool.and_eq_true, Bool.not_eq_true', beq_iff_eq] at hy
+            have hinv' : XInv db.toS m L ⟨st.count.setItem p.key (st.count.getItemDefault p.key 0 + 1), st.cset.add p.key⟩
+                (pre ++ [c]) (p.key :: Y) := by
+              refine ⟨hcount, ?_, ?_⟩
+              · intro k
+                show (st.cset.add p.key).contains k = _
+                rw [contains_add, hinv.cset k, List.any_cons]
+                cases keq k p.key <;> cases cited L k <;> simp
+              · intro k
+                rw [List.any_cons, hr k]
+                by_cases hk : lower k = lower p.key
+                · have hk1 : keq k p.key = true := (keq_iff _ _).2 hk
+                  rw [hk1, if_pos hk, cited_congr hk, refCount_congr hk]
+                  simp only [Bool.true_or, true_iff]
+                  exact ⟨hy.1, by omega⟩
+                · have hk1 : keq k p.key = false := by
+                    rw [Bool.eq_false_iff]; intro h'; exact hk ((keq_iff _ _).1 h')
+                  rw [hk1, if_neg hk]
+                  simpa using hinv.yielded k
+            rw [ih _ _ _ hinv']
+            simp
+          · rw [if_neg hy, if_neg hy]
+            have hinv' : XInv db.toS m L ⟨st.count.setItem p.key (st.count.getItemDefault p.key 0 + 1), st.cset⟩
+                (pre ++ [c]) Y := by
+              refine ⟨hcount, hinv.cset, ?_⟩
+              intro k
+              rw [hr k]
+              by_cases hk : lower k = lower p.key
+              · rw [if_pos hk, any_keq_congr hk, cited_congr hk, refCount_congr hk]
+                simp only [Bool.and_eq_true, Bool.not_eq_true', beq_iff_eq, not_and] at hy
+                constructor
+                · intro h'; have := hyp.1 h'; exact ⟨this.1, by omega⟩
+                · rintro ⟨h1, h2⟩
+                  apply hyp.2
+                  refine ⟨h1, ?_⟩
+                  have := hy h1
+                  omega
+              · rw [if_neg hk]
+                simpa using hinv.yielded k
+            rw [ih _ _ _ hinv']
+            simp
+
+theorem xinv_init (sdb : SDb) (m : Int) (L : List Str) :
+    XInv sdb m L ⟨CIDict.empty, CISet.ofList L⟩ [] [] := by
+  refine ⟨?_, ?_, ?_⟩
+  · intro k; simp [CIDict.getItemDefault, CIDict.getItem, CIDict.empty, dget, refCount]
+  · intro k; simp [contains_ofList]
+  · intro k
+    simp only [List.any_nil, Bool.false_eq_true, refCount, List.filter_nil, List.length_nil, false_iff, not_and]
+    intro _
+    omega
+
+theorem crossreferenced_spec {db : BibData} (hdb : DbWF db) (L : List Str) (m : Int) :
+    db.crossreferenced L m =
+      (extra db.toS L m, (dangling db.toS L).map fun p => Report.badCrossref p.1 p.2) :=
+  crossrefAux_spec hdb m L L _ [] [] (xinv_init _ m L)
+
+/-! ### consequences of the specification of `extra` -/
+
+theorem refCount_le_append (db : SDb) (p : Str) (a b : List Str) : refCount db p a ≤ refCount db p (a ++ b) := by
+  rw [refCount_append]; omega
+
+theorem refCount_snoc_le (db : SDb) (p : Str) (a : List Str) (c : Str) :
+    refCount db p (a ++ [c]) ≤ refCount db p a + 1 := by
+  rw [refCount_append, refCount_single]; split <;> omega
+
+theorem mem_extraFrom {sdb : SDb} {m : Int} {L : List Str} {x : Str} :
+    ∀ {suf pre : List Str}, x ∈ extraFrom sdb m L pre suf →
+      cited L x = false ∧ (refCount sdb x pre : Int) < max m 1 ∧ max m 1 ≤ (refCount sdb x (pre ++ suf) : Int) ∧
+      ∃ c ∈ suf, ∃ P, parentOf sdb c = some P ∧ P.key = x := by
+  intro suf
+  induction suf with
+  | nil => intro pre h; simp [extraFrom] at h
+  | cons c suf ih =>
+    intro pre h
+    simp only [extraFrom, List.mem_append] at h
+    rcases h with h | h
+    · cases hp : parentOf sdb c with
+      | none => simp [hp] at h
+      | some P =>
+        simp only [hp] at h
+        split at h
+        · rename_i hc
+          simp only [List.mem_singleton] at h
+          subst h
+          simp only [Bool.and_eq_true, Bool.not_eq_true', beq_iff_eq] at hc
+          have h1 : refCount sdb P.key (pre ++ [c]) = refCount sdb P.key pre + 1 := by
+            rw [refCount_append, refCount_single, refers_of_parent hp, keq_refl]; rfl
+          have h2 := refCount_le_append sdb P.key (pre ++ [c]) suf
+          rw [List.append_assoc] at h2
+          refine ⟨hc.1, by omega, ?_, c, by simp, P, hp, rfl⟩
+          simp only [List.singleton_append] at h2
+          omega
+        · simp at h
+    · obtain ⟨h1, h2, h3, c', hc', hP⟩ := ih h
+      have := refCount_le_append sdb x pre [c]
+      rw [List.append_assoc] at h3
+      exact ⟨h1, by omega, h3, c', List.mem_cons_of_mem _ hc', hP⟩
+
+theorem extraFrom_complete {sdb : SDb} {m : Int} {L : List Str} {k : Str} (hc : cited L k = false) :
+    ∀ {suf pre : List Str}, (refCount sdb k pre : Int) < max m 1 → max m 1 ≤ (refCount sdb k (pre ++ suf) : Int) →
+      (extraFrom sdb m L pre suf).any (keq k) = true := by
+  intro suf
+  induction suf with
+  | nil => intro pre h1 h2; simp at h2; omega
+  | cons c suf ih =>
+    intro pre h1 h2
+    simp only [extraFrom, List.any_append, Bool.or_eq_true]
+    by_cases hr : max m 1 ≤ (refCount sdb k (pre ++ [c]) : Int)
+    · left
+      have hle := refCount_snoc_le sdb k pre c
+      have hrc : refCount sdb k (pre ++ [c]) = refCount sdb k pre + 1 := by omega
+      have href : refers sdb k c = true := by
+        rw [refCount_append, refCount_single] at hrc
+        split at hrc
+        · assumption
+        · omega
+      unfold refers at href
+      split at href
+      · rename_i P hp
+        have hk : lower P.key = lower k := (keq_iff _ _).1 href
+        have h3 : (!cited L P.key && ((refCount sdb P.key (pre ++ [c]) : Int) == max m 1)) = true := by
+          rw [cited_congr hk, refCount_congr hk, hc]
+          simp only [Bool.not_false, Bool.true_and, beq_iff_eq]
+          omega
+        simp only [h3, if_true, List.any_cons, List.any_nil, Bool.or_false]
+        rw [keq_comm]; exact href
+      · cases href
+    · right
+      apply ih (by omega)
+      rw [List.append_assoc]; exact h2
+
+theorem extraFrom_pairwise {sdb : SDb} {m : Int} {L : List Str} :
+    ∀ {suf pre : List Str}, (extraFrom sdb m L pre suf).Pairwise fun a b =>
+      ∃ n, max m 1 ≤ (refCount sdb a ((pre ++ suf).take n) : Int) ∧ (refCount sdb b ((pre ++ suf).take n) : Int) < max m 1 := by
+  intro suf
+  induction suf with
+  | nil => intro pre; simp [extraFrom]
+  | cons c suf ih =>
+    intro pre
+    simp only [extraFrom]
+    have hassoc : pre ++ c :: suf = (pre ++ [c]) ++ suf := by simp
+    rw [List.pairwise_append]
+    refine ⟨?_, ?_, ?_⟩
+    · cases parentOf sdb c with
+      | none => simp
+      | some P => dsimp only; split <;> simp
+    · rw [hassoc]; exact ih
+    · intro a ha b hb
+      obtain ⟨-, hb2, -, -⟩ := mem_extraFrom hb
+      refine ⟨(pre ++ [c]).length, ?_, ?_⟩
+      · rw [hassoc, List.take_left']
+        · cases hp : parentOf sdb c with
+          | none => simp [hp] at ha
+          | some P =>
+            simp only [hp] at ha
+            split at ha
+            · rename_i hc
+              simp only [List.mem_singleton] at ha
+              subst ha
+              simp only [Bool.and_eq_true, Bool.not_eq_true', beq_iff_eq] at hc
+              omega
+            · simp at ha
+        · rfl
+      · rw [hassoc, List.take_left' rfl]; exact hb2
+
+/-! ### what `add_entry` / the reader preserve -/
+
+theorem omap_set_mem {V : Type} {m : OMap V} {k : Str} {v : V} {t : Str × Str × V} (h : t ∈ OMap.set m k v) :
+    t ∈ m ∨ t = (lower k, k, v) := by
+  induction m with
+  | nil => simp [OMap.set] at h; exact Or.inr h
+  | cons e m ih =>
+    obtain ⟨l, sp, w⟩ := e
+    simp only [OMap.set] at h
+    split at h
+    · rename_i hl
+      rcases List.mem_cons.1 h with h | h
+      · right; rw [h, hl]
+      · left; exact List.mem_cons_of_mem _ h
+    · rcases List.mem_cons.1 h with h | h
+      · left; rw [h]; exact List.mem_cons_self
+      · rcases ih h with h | h
+        · left; exact List.mem_cons_of_mem _ h
+        · right; exact h
+
+theorem DbWF.init (w : Option (List Str)) : DbWF (BibData.init w) := by
+  cases w <;> exact ⟨CIDict.inv_empty, by simp [BibData.init, CIDict.abs, CIDict.empty], by simp [BibData.init, CIDict.abs, CIDict.empty]⟩
+
+theorem DbWF.setEntry {d : BibData} (h : DbWF d) {e : Entry} (he : EntryWF e) (ck : Str) (w : Option CISet) :
+    DbWF { d with entries := d.entries.setItem ck { e with key := ck }, wanted := w } := by
+  refine ⟨CIDict.inv_setItem h.inv _ _, ?_, ?_⟩
+  · intro t ht
+    rw [CIDict.abs_setItem h.inv] at ht
+    rcases omap_set_mem ht with ht | ht
+    · exact h.keyEq t ht
+    · subst ht; rfl
+  · intro t ht
+    rw [CIDict.abs_setItem h.inv] at ht
+    rcases omap_set_mem ht with ht | ht
+    · exact h.entries t ht
+    · subst ht; exact ⟨he.fields, he.persons⟩
+
+theorem canonical_of_contains {s : CISet} (h : CISet.Inv s) {k : Str} (hk : s.contains k = true) :
+    ∃ x, s.canonical k = some x := by
+  simp only [CISet.contains, h.1] at hk
+  simp only [CISet.canonical]
+  cases hg : dget s.keys (lower k) with
+  | some x => exact ⟨x, rfl⟩
+  | none =>
+    have := (dget_none_iff _ _).1 hg
+    simp at hk
+    exact absurd hk (by simpa using this)
+
+/-- `add_entry` never raises, keeps the database well formed and does not touch `citations` -/
+theorem addEntry_spec {d : BibData} (h : DbWF d) (hc : CISet.Inv d.citations) (key : Str) {e : Entry} (he : EntryWF e) :
+    ∃ d' rep, d.addEntry key e = some (d', rep) ∧ DbWF d' ∧ d'.citations = d.citations := by
+  unfold BibData.addEntry
+  split
+  · exact ⟨d, [], rfl, h, rfl⟩
+  · split
+    · exact ⟨d, _, rfl, h, rfl⟩
+    · have hck : ∃ ck, d.getCanonicalKey key = some ck := by
+        unfold BibData.getCanonicalKey
+        split
+        · rename_i hk; exact canonical_of_contains hc hk
+        · exact ⟨key, rfl⟩
+      obtain ⟨ck, hck⟩ := hck
+      rw [hck]
+      dsimp only
+      split
+      · exact ⟨_, [], rfl, h.setEntry he ck d.wanted, rfl⟩
+      · split
+        · rename_i hw
+          refine ⟨_, [], rfl, ?_, rfl⟩
+          have := h.setEntry he ck d.wanted
+          exact this
+        · rename_i w hw
+          exact ⟨_, [], rfl, h.setEntry he ck (some (w.add _)), rfl⟩
+
+theorem parseEntry_spec {d : BibData} (h : DbWF d) (hc : CISet.Inv d.citations) (key : Str) {e : Entry} (he : EntryWF e) :
+    ∃ d' rep, d.parseEntry key e = some (d', rep) ∧ DbWF d' ∧ d'.citations = d.citations := by
+  unfold BibData.parseEntry
+  split
+  · exact ⟨d, [], rfl, h, rfl⟩
+  · exact addEntry_spec h hc key he
+
+theorem readEntries_spec (file : List (Str × Entry)) (hf : ∀ p ∈ file, EntryWF p.2) :
+    ∀ {d : BibData}, DbWF d → CISet.Inv d.citations →
+      ∃ d' rep, d.readEntries file = some (d', rep) ∧ DbWF d' ∧ d'.citations = d.citations := by
+  induction file with
+  | nil => intro d h _; exact ⟨d, [], rfl, h, rfl⟩
+  | cons p file ih =>
+    intro d h hc
+    obtain ⟨k, e⟩ := p
+    obtain ⟨d1, rep1, h1, hw1, hc1⟩ := parseEntry_spec h hc k (hf (k, e) (by simp))
+    obtain ⟨d2, rep2, h2, hw2, hc2⟩ := ih (fun p hp => hf p (List.mem_cons_of_mem _ hp)) hw1 (hc1 ▸ hc)
+    refine ⟨d2, rep1 ++ rep2, ?_, hw2, hc2.trans hc1⟩
+    simp [BibData.readEntries, h1, h2]
+
+theorem init_citations_inv (w : Option (List Str)) : CISet.Inv (BibData.init w).citations := by
+  cases w with
+  | none => exact CISet.inv_empty
+  | some l => exact (CISet.ofList_spec l).1
+
+/-- Reading a file never raises and yields a well-formed database. -/
+theorem readFile_spec (w : Option (List Str)) (file : List (Str × Entry)) (hf : ∀ p ∈ file, EntryWF p.2) :
+    ∃ d rep, BibData.readFile w file = some (d, rep) ∧ DbWF d ∧ d.citations = (BibData.init w).citations :=
+  readEntries_spec file hf (DbWF.init w) (init_citations_inv w)
+
+/-- an entry of the raw file as the specification sees it -/
+def rawToS (p : Str × Entry) : SEntry := { p.2.toS with key := p.1 }
+
+/-! ### the two engines' last step -/
+
+theorem removeMissing_spec {db : BibData} (hdb : DbWF db) (l : List Str) :
+    (db.removeMissing l).1 = present db.toS l ∧
+    (db.removeMissing l).2 = (missing db.toS l).map Report.missingEntry := by
+  induction l with
+  | nil => simp [BibData.removeMissing, present, missing]
+  | cons c l ih =>
+    simp only [BibData.removeMissing, present, missing, List.filter_cons, contains_entries hdb c]
+    cases h : (find db.toS c).isSome with
+    | true =>
+      have : (find db.toS c).isNone = false := by
+        cases hf : find db.toS c <;> simp_all
+      simp only [if_true, this, Bool.false_eq_true, if_false]
+      exact ⟨by rw [ih.1]; rfl, by rw [ih.2]; rfl⟩
+    | false =>
+      have : (find db.toS c).isNone = true := by
+        cases hf : find db.toS c <;> simp_all
+      simp only [Bool.false_eq_true, if_false, this, if_true, List.map_cons]
+      exact ⟨by rw [ih.1]; rfl, by rw [ih.2]; rfl⟩
+
+theorem lookupAll_present {db : BibData} (hdb : DbWF db) (l : List Str) :
+    ∃ es, db.lookupAll (present db.toS l) = some es ∧
+      (es.map (·.key)).map lower = (present db.toS l).map lower := by
+  induction l with
+  | nil => exact ⟨[], rfl, rfl⟩
+  | cons c l ih =>
+    obtain ⟨es, h1, h2⟩ := ih
+    simp only [present, List.filter_cons]
+    cases h : (find db.toS c).isSome with
+    | false => simp only [Bool.false_eq_true, if_false]; exact ⟨es, h1, h2⟩
+    | true =>
+      simp only [if_true]
+      have hg := getItem_entries hdb c
+      cases hgc : db.entries.getItem c with
+      | none => rw [hgc] at hg; simp [← hg] at h
+      | some e =>
+        obtain ⟨-, hk⟩ := getItem_entries_wf hdb hgc
+        refine ⟨e :: es, ?_, ?_⟩
+        · simp only [BibData.lookupAll, hgc]
+          show Option.map _ (db.lookupAll (present db.toS l)) = _
+          rw [h1]; rfl
+        · simp only [List.map_cons, hk]
+          congr 1
+
+/-! ### spelling of the keys stored by the filtered reading -/
+
+theorem dget_mem {α : Type} {ks : List (Str × α)} {k : Str} {v : α} (h : dget ks k = some v) : (k, v) ∈ ks := by
+  induction ks with
+  | nil => simp [dget] at h
+  | cons a ks ih =>
+    obtain ⟨k', v'⟩ := a
+    simp only [dget] at h
+    split at h
+    · rename_i hk; cases h; subst hk; simp
+    · exact List.mem_cons_of_mem _ (ih h)
+
+theorem foldl_add_keys (l : List Str) (s : CISet) :
+    ∀ p ∈ (l.foldl CISet.add s).keys, p ∈ s.keys ∨ p.2 ∈ l := by
+  induction l generalizing s with
+  | nil => intro p hp; exact Or.inl hp
+  | cons c l ih =>
+    intro p hp
+    rcases ih (s.add c) p hp with h | h
+    · rcases dset_mem h with h | h
+      · exact Or.inl h
+      · right; rw [h]; simp
+    · right; exact List.mem_cons_of_mem _ h
+
+theorem canonical_ofList_mem {l : List Str} {k x : Str} (h : (CISet.ofList l).canonical k = some x) : x ∈ l := by
+  have := dget_mem h
+  rcases foldl_add_keys l CISet.empty _ this with h' | h'
+  · simp [CISet.empty] at h'
+  · exact h'
+
+/-- keys stored in the database that match a citation are spelled as in the citation list -/
+def SpelledAsCited (cits : List Str) (d : BibData) : Prop :=
+  ∀ k ∈ CIDict.iter d.entries, cited cits k = true → k ∈ cits
+
+theorem iter_setItem_mem {V : Type} {d : CIDict V} {k : Str} {v : V} {x : Str} (h : x ∈ CIDict.iter (d.setItem k v)) :
+    x ∈ CIDict.iter d ∨ x = k := by
+  simp only [CIDict.iter, CIDict.setItem, List.mem_map] at h ⊢
+  obtain ⟨p, hp, hx⟩ := h
+  rcases dset_mem hp with hp | hp
+  · exact Or.inl ⟨p, hp, hx⟩
+  · right; rw [← hx, hp]
+
+theorem addEntry_spelling {cits : List Str} {d d' : BibData} {key : Str} {e : Entry} {rep : List Report}
+    (hc : d.citations = CISet.ofList cits) (hs : SpelledAsCited cits d) (h : d.addEntry key e = some (d', rep)) :
+    d'.citations = CISet.ofList cits ∧ SpelledAsCited cits d' := by
+  unfold BibData.addEntry at h
+  split at h
+  · cases h; exact ⟨hc, hs⟩
+  · split at h
+    · cases h; exact ⟨hc, hs⟩
+    · cases hck : d.getCanonicalKey key with
+      | none => simp [hck] at h
+      | some ck =>
+        have hsp : SpelledAsCited cits { d with entries := d.entries.setItem ck { e with key := ck } } := by
+          intro k hk hcit
+          rcases iter_setItem_mem hk with hk | hk
+          · exact hs k hk hcit
+          · subst hk
+            unfold BibData.getCanonicalKey at hck
+            rw [hc] at hck
+            split at hck
+            · exact canonical_ofList_mem hck
+            · rename_i hnc
+              cases hck
+              rw [contains_ofList] at hnc
+              exact absurd hcit hnc
+        simp only [hck] at h
+        split at h
+        · cases h; exact ⟨hc, hsp⟩
+        · split at h
+          · cases h; exact ⟨hc, hsp⟩
+          · cases h; exact ⟨hc, hsp⟩
+
+theorem readEntries_spelling {cits : List Str} (file : List (Str × Entry)) :
+    ∀ {d d' : BibData} {rep : List Report}, d.citations = CISet.ofList cits → SpelledAsCited cits d →
+      d.readEntries file = some (d', rep) → SpelledAsCited cits d' := by
+  induction file with
+  | nil => intro d d' rep _ hs h; simp only [BibData.readEntries] at h; cases h; exact hs
+  | cons p file ih =>
+    intro d d' rep hc hs h
+    obtain ⟨k, e⟩ := p
+    simp only [BibData.readEntries] at h
+    cases h1 : d.parseEntry k e with
+    | none => simp [h1] at h
+    | some r1 =>
+      obtain ⟨d1, rep1⟩ := r1
+      simp only [h1] at h
+      cases h2 : d1.readEntries file with
+      | none => simp [h2] at h
+      | some r2 =>
+        obtain ⟨d2, rep2⟩ := r2
+        simp only [h2, Option.some.injEq, Prod.mk.injEq] at h
+        obtain ⟨rfl, -⟩ := h
+        have h1' : d1.citations = CISet.ofList cits ∧ SpelledAsCited cits d1 := by
+          unfold BibData.parseEntry at h1
+          split at h1
+          · cases h1; exact ⟨hc, hs⟩
+          · exact addEntry_spelling hc hs h1
+        exact ih h1'.1 h1'.2 h2
+
+theorem readFile_spelling (cits : List Str) (file : List (Str × Entry)) {db : BibData} {rep : List Report}
+    (h : BibData.readFile (some cits) file = some (db, rep)) : SpelledAsCited cits db :=
+  readEntries_spelling file (d := BibData.init (some cits)) rfl
+    (by intro k hk; simp [BibData.init, CIDict.iter, CIDict.empty] at hk) h
+
 end Pybtex
